@@ -122,6 +122,57 @@ static void run_config(const Config & c, uint64_t seed, long n_iid, int n_grid)
     if (std::fabs(re1 - pars.ebb1) > 1e-12 || std::fabs(re2 - pars.ebb2) > 1e-12)
       record(st.mm, lab + "|range", fmt("clamped range reference [%.12g,%.12g], port [%.12g,%.12g]", re1, re2, pars.ebb1, pars.ebb2));
     if (rlevelE != pars.levelE) record(st.mm, lab + "|levelE", fmt("levelE reference %d, port %d", rlevelE, pars.levelE));
+    if (c.mode != 20 && c.mode != 9 && c.mode != 11 && c.mode != 12) {
+      // the pre-computed 1-keV spectrum of the first lepton, bin by bin (the reference's table is read through a named common block);
+      // modes 9, 11, 12 and 20 do not compute it (both sides keep whatever an earlier configuration left there)
+      static double rtab[4300];
+      double rmax = 0;
+      auto cmp = [&](int & nbad, int & worst, double & worst_rel) {
+        vf_getspthe1_(rtab, &rmax);
+        nbad = 0;
+        worst = -1;
+        worst_rel = 0;
+        for (int i = 0; i < 4300; i++) {
+          double a = rtab[i], b = pars.spthe1[i];
+          double d = std::fabs(a - b), n = std::max(std::fabs(a), std::fabs(b));
+          if (d > 1e-9 * n && d > 1e-290) {
+            nbad++;
+            if (d / n > worst_rel) { worst_rel = d / n; worst = i; }
+          }
+        }
+        if (std::fabs(rmax - pars.spmax) > 1e-9 * std::fabs(rmax) && worst < 0) { nbad++; worst = 4300; worst_rel = std::fabs(rmax - pars.spmax) / std::fabs(rmax); }
+      };
+      int nbad, worst;
+      double wrel;
+      cmp(nbad, worst, wrel);
+      st.table_bins += 4300;
+      if (nbad > 0) {
+        std::string what = worst < 4300 ? fmt("%d bins differ; worst: bin %d (e1 = %.3f MeV) reference %.12g port %.12g (relative %.2e)", nbad, worst + 1, (worst + 1) / 1000.0, rtab[worst],
+                                               pars.spthe1[worst], wrel)
+                                        : fmt("spmax reference %.12g port %.12g", rmax, pars.spmax);
+        bool same_without_clamp = false;
+        if (ref_state().port_fermi) {
+          ref_state().inplace_clamp = false;
+          double a1 = c.e1, a2 = c.e2;
+          int ier2 = 0;
+          vf_setenrange_(&a1, &a2);
+          tape.rewind();
+          if (ref_genbbsub(1, c.name, c.level, c.mode, -1, ier2) && ier2 == 0) {
+            int nb2, w2;
+            double r2;
+            cmp(nb2, w2, r2);
+            same_without_clamp = nb2 == 0;
+          }
+          ref_state().inplace_clamp = true;
+          a1 = c.e1; a2 = c.e2;
+          vf_setenrange_(&a1, &a2);
+          tape.rewind();
+          ref_genbbsub(1, c.name, c.level, c.mode, -1, ier2); // back to the faithful reference state
+        }
+        if (same_without_clamp) record(st.mm, "dbd|lepton-below-50eV-clamped-in-reference", lab + ": spectrum table: " + what + " (equal once the in-place clamp is disabled)");
+        else record(st.mm, lab + "|spectrum-table", what);
+      }
+    }
     {
       // the process parameters both sides hand to their spectrum and angular-correlation functions (common/helpbb/ vs bbpars)
       double rz = 0, ra = 0, re0 = 0;
@@ -301,7 +352,7 @@ static void run_config(const Config & c, uint64_t seed, long n_iid, int n_grid)
   }
   std::sort(st.draws_hist.begin(), st.draws_hist.end());
   size_t p999 = st.draws_hist.empty() ? 0 : st.draws_hist[(size_t)(0.999 * (st.draws_hist.size() - 1))];
-  fprintf(OUT, "\"deep\":[%ld,%ld,%ld,%ld,%ld],", ds.events, ds.nodes_expanded, ds.nodes_found, ds.max_depth, ds.frontier_left);
+  fprintf(OUT, "\"deep\":[%ld,%ld,%ld,%ld,%ld],\"table_bins\":%ld,", ds.events, ds.nodes_expanded, ds.nodes_found, ds.max_depth, ds.frontier_left, st.table_bins);
   fprintf(OUT, "\"accepted\":%s,\"toallevents\":%s,\"Qbb\":%s,\"events\":%ld,\"distinct_signatures\":%zu,\"max_draws\":%zu,\"p999_draws\":%zu,\"cap_hits\":%ld,\"sample\":%s,",
           (accepted_ref && accepted_port) ? "true" : "false", jnum(pars.toallevents).c_str(), jnum(pars.Qbb).c_str(), st.events, st.sigs.size(), st.max_draws, p999, st.cap_hits,
           st.sample.empty() ? "null" : st.sample.c_str());
